@@ -10,6 +10,7 @@ import RsMatterVerif.Lemmas.CodecBleAdv
 import RsMatterVerif.Lemmas.CodecDerRead -- D16d
 import RsMatterVerif.Lemmas.CodecCmsCd -- D16d
 import RsMatterVerif.Lemmas.CodecCmsRound -- D16d
+import RsMatterVerif.Lemmas.CodecCertAsn1
 /-!
 # C17 — headers, onboarding payloads and discovery records decode what was encoded
 
@@ -300,7 +301,7 @@ and rs-matter's `cert/der_utils.rs`
 checked subtraction, `debug_assert!` or `copy_from_slice` of the Rust code would panic) nor `E.endless`
 (a loop ran out of fuel). `Der.Within input v` = `v` is a range `[off, off + |v|)` of `input`. -/
 
-open Codec.Der in
+open Codec.DerRd in
 /-- **the reading primitives are total and never panic**, on every well-formed reader (`Rdr.WF`: the
 invariant that `SliceReader::new` / `NestedReader::new` establish and every read preserves), for
 arbitrary bytes (no range assumption on the "bytes") and any requested length -/
@@ -309,10 +310,10 @@ theorem der_reader_total (r : Rdr) (h : r.WF) (n : Nat) :
     Safe (anyDecode r) ∧ Safe r.finish ∧ Safe (nestedNew r n) :=
   ⟨readSlice_safe h n, readByte_safe h, lengthDecode_safe h, headerDecode_safe h, anyDecode_safe h,
    finish_safe h, nestedNew_safe h n⟩
-example : ∃ r, Codec.Der.Rdr.new [0x30, 0x00] = .ok r ∧ r.WF :=
+example : ∃ r, Codec.DerRd.Rdr.new [0x30, 0x00] = .ok r ∧ r.WF :=
   ⟨.slice [0x30, 0x00] 0, rfl, by decide, by decide⟩
 
-open Codec.Der in
+open Codec.DerRd in
 /-- **every slice a read returns is the range `[offset, offset + n)` of the input, inside the input**,
 the reader advances by exactly `n` and stays well formed (same input, same nesting) -/
 theorem der_read_slice_within (r : Rdr) (h : r.WF) (n : Nat) (s : List Nat) (r' : Rdr)
@@ -323,9 +324,9 @@ theorem der_read_slice_within (r : Rdr) (h : r.WF) (n : Nat) (s : List Nat) (r' 
   have := h5.offset_le
   rw [h3, h4] at this
   exact ⟨h1, h2, this, h3, h4, h5, h8⟩
-example : (Codec.Der.Rdr.slice [1, 2, 3] 1).readSlice 2 = .ok ([2, 3], .slice [1, 2, 3] 3) := rfl
+example : (Codec.DerRd.Rdr.slice [1, 2, 3] 1).readSlice 2 = .ok ([2, 3], .slice [1, 2, 3] 3) := rfl
 
-open Codec.Der in
+open Codec.DerRd in
 /-- **`AnyRef::decode`: the value lies inside the input, at least two octets behind the old offset, and
 the reader moves strictly forward to its end** -/
 theorem der_any_within_and_progress (r : Rdr) (h : r.WF) (tag : Nat) (v : List Nat) (r' : Rdr)
@@ -334,30 +335,30 @@ theorem der_any_within_and_progress (r : Rdr) (h : r.WF) (tag : Nat) (v : List N
       r.offset + hl + v.length ≤ r.input.length ∧ r'.offset = r.offset + hl + v.length ∧ r'.WF := by
   obtain ⟨hl, h1, h2, h3, h4⟩ := anyDecode_spec h hr
   exact ⟨hl, h1, h2, h3, by rw [h4.off]; omega, h4.wf⟩
-example : Codec.Der.anyDecode (.slice [0x02, 0x01, 0x05] 0) = .ok ((2, [5]), .slice [0x02, 0x01, 0x05] 3) := rfl
+example : Codec.DerRd.anyDecode (.slice [0x02, 0x01, 0x05] 0) = .ok ((2, [5]), .slice [0x02, 0x01, 0x05] 3) := rfl
 
-open Codec.Der in
+open Codec.DerRd in
 /-- **DER is canonical in this reader**: whatever `AnyRef::from_der` accepts is exactly
 `identifier ‖ minimal length octets ‖ value` of what it returns — over-long (non-minimal) lengths, the
 indefinite form, lengths above 256 MiB and trailing bytes are all refused -/
 theorem der_from_der_canonical (bytes : List Nat) (hbytes : ∀ b ∈ bytes, b < 256) (tag : Nat) (v : List Nat)
     (h : fromDerAny bytes = .ok (tag, v)) : bytes = encTlv tag v :=
   fromDerAny_canonical hbytes h
-example : Codec.Der.fromDerAny [0x04, 0x02, 0xAA, 0xBB] = .ok (4, [0xAA, 0xBB]) := rfl
+example : Codec.DerRd.fromDerAny [0x04, 0x02, 0xAA, 0xBB] = .ok (4, [0xAA, 0xBB]) := rfl
 /-- samples of the refusal (tests, not the theorem): non-minimal long form, indefinite form, length-of-length 8 -/
-example : Codec.Der.fromDerAny [0x04, 0x81, 0x01, 0xAA] = .error .length ∧
-    Codec.Der.fromDerAny [0x30, 0x80, 0x00, 0x00] = .error .indefiniteLength ∧
-    Codec.Der.fromDerAny [0x04, 0x88, 0xff, 0xff, 0xff, 0xff, 0xff, 0xff, 0xff, 0xff] = .error .length := ⟨rfl, rfl, rfl⟩
+example : Codec.DerRd.fromDerAny [0x04, 0x81, 0x01, 0xAA] = .error .length ∧
+    Codec.DerRd.fromDerAny [0x30, 0x80, 0x00, 0x00] = .error .indefiniteLength ∧
+    Codec.DerRd.fromDerAny [0x04, 0x88, 0xff, 0xff, 0xff, 0xff, 0xff, 0xff, 0xff, 0xff] = .error .length := ⟨rfl, rfl, rfl⟩
 
-open Codec.Der in
+open Codec.DerRd in
 /-- **round trip of the element layer**: `from_der (encTlv tag v) = (tag, v)` for every tag octet that
 `Tag::try_from` knows and every value whose encoding fits `Length::MAX` -/
 theorem der_from_der_encode (tag : Nat) (v : List Nat) (ht : tagOfByte tag = .ok tag)
     (hmax : (encTlv tag v).length ≤ MAX_LEN) : fromDerAny (encTlv tag v) = .ok (tag, v) :=
   fromDerAny_enc ht hmax
-example : Codec.Der.tagOfByte 0x30 = .ok 0x30 ∧ (Codec.Der.encTlv 0x30 [5, 0]).length ≤ Codec.Der.MAX_LEN := ⟨rfl, by decide⟩
+example : Codec.DerRd.tagOfByte 0x30 = .ok 0x30 ∧ (Codec.DerRd.encTlv 0x30 [5, 0]).length ≤ Codec.DerRd.MAX_LEN := ⟨rfl, by decide⟩
 
-open Codec.Der in
+open Codec.DerRd in
 /-- **`Length::decode` inverts the minimal length octets (all five forms) and accepts nothing else** -/
 theorem der_length_roundtrip_and_canonical :
     (∀ (bytes : List Nat) (pos n : Nat) (rest : List Nat), bytes.drop pos = encLen n ++ rest → n ≤ MAX_LEN →
@@ -371,14 +372,14 @@ theorem der_length_roundtrip_and_canonical :
      obtain ⟨h1, h2, h3⟩ := lengthDecode_spec h hb hr
      exact ⟨h1, h3, h2.off⟩⟩
 
-open Codec.Der in
+open Codec.DerRd in
 /-- **truncation is refused**: every strict prefix of an element is an error (never a value, never a panic) -/
 theorem der_truncated_rejected (tag : Nat) (v : List Nat) (hbytes : ∀ b ∈ encTlv tag v, b < 256) (k : Nat)
     (hk : k < (encTlv tag v).length) : ∃ e, fromDerAny ((encTlv tag v).take k) = .error e ∧ e ≠ .panic :=
   fromDerAny_truncated hbytes k hk
-example : ∀ b ∈ Codec.Der.encTlv 0x04 [1, 2, 3], b < 256 := by decide
+example : ∀ b ∈ Codec.DerRd.encTlv 0x04 [1, 2, 3], b < 256 := by decide
 
-open Codec.Der in
+open Codec.DerRd in
 /-- **iteration over a sequence terminates and consumes strictly**: the `while !is_finished() { AnyRef::decode }`
 loop (`MatterDnAttrs::parse`, `ParsedExtensionFields::parse`), started with fuel `|input| + 1`, never runs out
 of fuel and never panics — both on a plain reader (`seqItems`) and inside `reader.sequence(…)` + `finish`
@@ -391,9 +392,9 @@ theorem der_sequence_iteration_total (bytes : List Nat) :
       | .error e => e ≠ .panic ∧ e ≠ .endless
       | .ok l => ∀ it ∈ l, Within bytes it.2) :=
   ⟨seqItems_spec bytes, sequenceItems_spec bytes⟩
-example : Codec.Der.sequenceItems [0x30, 5, 2, 1, 5, 5, 0] = .ok [(2, [5]), (5, [])] := rfl
+example : Codec.DerRd.sequenceItems [0x30, 5, 2, 1, 5, 5, 0] = .ok [(2, [5]), (5, [])] := rfl
 
-open Codec.Der in
+open Codec.DerRd in
 /-- **`cert/der_utils.rs` is total**: `ecdsa_der_to_raw` and `copy_integer_to_fixed` never panic (the
 `src[0]`, `&src[1..]`, `target.len() - src.len()`, `target[..offset]`, `copy_from_slice` of the Rust code are
 checked operations in the model) and the zero-stripping loop terminates; `copy_integer_to_fixed` answers
@@ -406,16 +407,16 @@ theorem ecdsa_der_total (der integer : List Nat) (n : Nat) :
   ⟨ecdsaDerToRaw_safe der, copyIntegerToFixed_safe n integer, copyIntegerToFixed_eq n integer,
    fun _ h => copyIntegerToFixed_length h⟩
 
-open Codec.Der in
+open Codec.DerRd in
 /-- **signature round trip**: the DER `SEQUENCE { INTEGER r, INTEGER s }` of two minimal big-endian
 magnitudes of at most 32 bytes decodes to `r‖s`, each half left-padded to 32 bytes -/
 theorem ecdsa_der_roundtrip (r s : List Nat) (hr : Canon 32 r) (hs : Canon 32 s) :
     ecdsaDerToRaw (encSig r s) = .ok (padLeft 32 r ++ padLeft 32 s) :=
   ecdsaDerToRaw_encSig hr hs
-example : Codec.Der.Canon 32 [0x43, 0xa6, 0x3f] ∧ Codec.Der.Canon 32 [] ∧ Codec.Der.Canon 32 (List.replicate 32 0xff) := by
+example : Codec.DerRd.Canon 32 [0x43, 0xa6, 0x3f] ∧ Codec.DerRd.Canon 32 [] ∧ Codec.DerRd.Canon 32 (List.replicate 32 0xff) := by
   refine ⟨⟨by decide, by decide, by decide⟩, ⟨by decide, by decide, by decide⟩, ⟨by decide, by decide, by decide⟩⟩
 
-open Codec.Der in
+open Codec.DerRd in
 /-- **`CmsSignedData::parse` (`attest/cd.rs`) is total and returns sub-slices of the message**: on arbitrary
 bytes the model never panics and never runs out of fuel; when it succeeds, `signer_key_id` (exactly 20 bytes)
 and `cd_content` are the ranges `[kidOff, kidOff + 20)` and `[cdOff, cdOff + |cd|)` of the message, and the
@@ -433,12 +434,12 @@ theorem cms_parse_total_and_within (msg : List Nat) :
   exact ⟨a1, a2, b1, b2, h3, h4⟩
 set_option maxRecDepth 100000 in
 /-- non-vacuity (a test): the model encoder's output is parsed, with the fields that were encoded -/
-example : (match Codec.Der.cmsParse (Codec.Der.encCms [0x15, 0x18] (List.replicate 20 7) [5] [6]) with
+example : (match Codec.DerRd.cmsParse (Codec.DerRd.encCms [0x15, 0x18] (List.replicate 20 7) [5] [6]) with
     | .ok c => c.kid == List.replicate 20 7 && c.kidOff == 63 && c.cd == [0x15, 0x18] && c.cdOff == 52 &&
         c.sig == List.replicate 31 0 ++ [5] ++ List.replicate 31 0 ++ [6]
     | .error _ => false) = true := by decide
 
-open Codec.Der in
+open Codec.DerRd in
 /-- **CMS round trip**: `CmsSignedData::parse` of the Matter CD envelope (RFC 5652 profile of `cd.rs`) built by
 the model encoder from a CD content, a 20-byte signer key identifier and a signature `(r, s)` (minimal magnitudes of
 at most 32 bytes) returns exactly the key identifier, the content and `pad32 r ‖ pad32 s`. The content bytes are
@@ -449,8 +450,141 @@ theorem cms_parse_encode (content kid r s : List Nat) (hk : kid.length = 20) (hr
       c.sig = padLeft 32 r ++ padLeft 32 s :=
   cmsParse_encCms hk hr hs hmax
 set_option maxRecDepth 100000 in
-example : (List.replicate 20 7).length = 20 ∧ Codec.Der.Canon 32 [5] ∧
-    (Codec.Der.encCms [0x15, 0x18] (List.replicate 20 7) [5] [6]).length ≤ Codec.Der.MAX_LEN :=
+example : (List.replicate 20 7).length = 20 ∧ Codec.DerRd.Canon 32 [5] ∧
+    (Codec.DerRd.encCms [0x15, 0x18] (List.replicate 20 7) [5] [6]).length ≤ Codec.DerRd.MAX_LEN :=
   ⟨by decide, ⟨by decide, by decide, by decide⟩, by decide⟩
+
+/-! ## (11) Matter-TLV certificate → X.509 DER: the DER writer `ASN1Writer` (`cert/asn1_writer.rs`), a DER
+reader, and `CertRef::as_asn1` (`cert.rs`) — D16c -/
+section DerCert
+open Codec.Der Codec.CertAsn1
+
+/-- length octets: the reader inverts the encoder for every length below 2^32 -/
+theorem der_len_roundtrip (n : Nat) (rest : List Nat) (h : n < 4294967296) :
+    decLen (encLen n ++ rest) = some (n, rest) :=
+  decLen_encLen n rest h
+
+/-- minimality: the only length octets the reader accepts for `n` are `encLen n` (no indefinite form, no
+leading zero, no long form for a short length) -/
+theorem der_len_minimal (l rest : List Nat) (n : Nat) (hb : ∀ b ∈ l, b < 256) (h : decLen l = some (n, rest)) :
+    n < 4294967296 ∧ l = encLen n ++ rest :=
+  decLen_canonical l rest n hb h
+example : decLen [0x82, 0x01, 0x00, 7] = some (256, [7]) := by decide
+
+/-- the length octets `encode_len` writes are DER's, for every length the writer supports -/
+theorem der_writer_len (n : Nat) (h : n < 65536) : lenBytes n = encLen n := lenBytes_eq_encLen n h
+
+/-- `parse (encode tree) = tree` for every tree with low tag numbers and lengths below 2^32 -/
+theorem der_parse_encode (d : Der) (hw : d.WF) (rest : List Nat) :
+    parseOne (fuelFor (d.enc ++ rest)) (d.enc ++ rest) = some (d, rest) ∧ parseDer d.enc = some d :=
+  ⟨parseOne_enc d hw _ (by have := fuel_le d; simp only [fuelFor, List.length_append]; omega) rest, parseDer_enc d hw⟩
+example : (Der.cons 0x30 [.prim 0x02 [5], .cons 0xA0 []]).WF :=
+  ⟨by decide, by decide, by decide, ⟨by decide, by decide, by decide⟩, ⟨by decide, by decide, by decide, trivial⟩, trivial⟩
+
+/-- what the reader accepts *is* the canonical (definite, minimal-length) encoding of the tree it returns -/
+theorem der_parse_canonical (l : List Nat) (d : Der) (hb : ∀ b ∈ l, b < 256) (h : parseDer l = some d) :
+    d.WF ∧ l = d.enc := by
+  unfold parseDer at h
+  split at h
+  · rename_i d' heq
+    simp only [Option.some.injEq] at h; subst h
+    have := (parse_sound (fuelFor l)).1 l d' [] hb heq
+    simpa using this
+  · simp at h
+
+/-- (ii) the writer never panics: any operation sequence (balanced or not, any nesting, any buffer) answers
+`Ok` or a clean error (`BufferTooSmall`, `Invalid`), provided every `utctime` argument is a date up to
+9999-12-31T23:59:59Z and the caller stops at the first error (`?`) -/
+theorem der_writer_never_panics (buf : List Nat) (ops : List Op) (h : ∀ op ∈ ops, op.argsOk) :
+    NoPanic ((W.new buf).run ops) :=
+  (Inv.new buf).run_noPanic ops h
+example : ∀ op ∈ [Op.startSeq, .utctime 252455615999, .endSeq, .endSeq], op.argsOk := by
+  intro op h; simp at h; rcases h with rfl | rfl | rfl | rfl <;> simp [Op.argsOk] <;> decide
+
+/-- … and the only errors are `BufferTooSmall` (no room, a length ≥ 65536, the depth limit) and `Invalid` (an end
+without a start) -/
+theorem der_writer_errors (buf : List Nat) (ops : List Op) (h : ∀ op ∈ ops, op.argsOk) (e : Err)
+    (he : (W.new buf).run ops = .error e) : e = .bufferTooSmall ∨ e = .invalid :=
+  (Inv.new buf).run_errors ops h e he
+
+/-- (i) writer output = encode(tree): a balanced operation sequence (every start has its end) whose nesting stays
+below the depth limit, whose lengths the writer can encode and which fits the buffer (`needL`: an open compound
+holds 1 + 3 header bytes until it is closed) succeeds, and `as_slice()` is the encoding of the operations' tree -/
+theorem der_writer_output_is_encoding (buf : List Nat) (ops : List Op) (ns : List Node) (hb : forest ops = some ns)
+    (hh : Node.heightL ns < MAX_DEPTH) (hl : Node.lenOkL ns) (hfit : Node.needL ns ≤ buf.length) :
+    ∃ w, (W.new buf).run ops = .ok w ∧ w.asSlice = .ok (Node.encL ns) :=
+  run_balanced buf ops ns hb hh hl hfit
+example : forest [.startSeq, .integer [5], .startOstr, .bool true, .endOstr, .endSeq]
+    = some [.cons 0x30 [.prim 0x02 [5], .cons 0x04 [.prim 0x01 [0xFF]]]] := rfl
+example : Node.heightL [.cons 0x30 [.prim 0x02 [5], .cons 0x04 [.prim 0x01 [0xFF]]]] < MAX_DEPTH := by decide
+example : Node.needL [.cons 0x30 [.prim 0x02 [5], .cons 0x04 [.prim 0x01 [0xFF]]]] ≤ 16 := by decide
+
+/-- "fits the buffer" is exactly `needL ≤ buf.len()`: with less room the same sequence answers `BufferTooSmall` -/
+theorem der_writer_need_exact (buf : List Nat) (ops : List Op) (ns : List Node) (hb : forest ops = some ns)
+    (hh : Node.heightL ns < MAX_DEPTH) (hl : Node.lenOkL ns) (hfit : buf.length < Node.needL ns) :
+    (W.new buf).run ops = .error .bufferTooSmall :=
+  run_balanced_noSpace buf ops ns hb hh hl hfit
+
+/-- (i) … and the output parses as well-formed DER whose tree is the tree of the operations (`toDerL`: a
+compound OCTET STRING is a primitive whose content is the encoding of its children; `raw` bytes stand for the DER
+values they contain — the hypothesis `toDerL ns = some ds` says that they are DER) -/
+theorem der_writer_output_parses (buf : List Nat) (ops : List Op) (ns : List Node) (ds : List Der)
+    (hb : forest ops = some ns) (hh : Node.heightL ns < MAX_DEPTH) (hl : Node.lenOkL ns)
+    (hfit : Node.needL ns ≤ buf.length) (ht : Node.tagsOkL ns) (hd : Node.toDerL ns = some ds) :
+    ∃ w out, (W.new buf).run ops = .ok w ∧ w.asSlice = .ok out ∧ parseAll out = some ds :=
+  parse_run_balanced buf ops ns ds hb hh hl hfit ht hd
+
+/-- BIT STRING of named bits (`bitstr(truncate = true, s)`, the key-usage extension): unused-bits byte followed by
+`s` without its trailing zero bytes; what is kept does not end in a zero byte, the count is the number of trailing
+zero bits of the last kept byte (0 for the empty string); what is cut is zeros -/
+theorem der_bitstr_named_bits (s : List Nat) :
+    ∃ k u, k ≤ s.length ∧ bitstrContent true s = u :: s.take k ∧ (∀ i, k ≤ i → i < s.length → s[i]? = some 0) ∧
+      (k = 0 → u = 0) ∧ (0 < k → ∃ x, s[k - 1]? = some x ∧ x ≠ 0 ∧ u = tz 8 x) :=
+  bitstrContent_true_spec s
+example : bitstrContent true [0x06, 0x00] = [1, 0x06] := by decide
+
+/-- a buffer below 64 KiB that is large enough makes every length encodable -/
+theorem der_lengths_fit (ns : List Node) (h : Node.needL ns < 65536) : Node.lenOkL ns := lenOkL_of_needL ns h
+
+/-- UTCTime / GeneralizedTime: every instant the writer can write (year-2050 rule included) reads back as
+the same instant -/
+theorem cert_time_roundtrip (e : Nat) (h : MATTER_EPOCH_SECS + e ≤ MAX_UNIX) :
+    ∃ tag s, timeStr e = some (tag, s) ∧ parseTime (.prim tag s) = some e :=
+  parseTime_timeStr e h
+
+/-- `as_asn1` never panics: for *any* accessor results (readable or failing fields, any list contents) within
+the types' bounds and any buffer it returns the DER or an error -/
+theorem cert_as_asn1_never_panics (c : Cert) (hb : c.Bounds) (buf : List Nat) :
+    asAsn1 c buf ≠ .error (.w .panic) :=
+  asAsn1_noPanic c hb buf
+
+def certSample : Fields :=
+  { serial := [0x10, 0x43], signAlgo := 1
+    issuer := [{ tag := 20, val := .uint 1 }, { tag := 1, val := .printable [0x43, 0x41] }]
+    notBefore := 0x27812280, notAfter := 0
+    subject := [{ tag := 17, val := .uint 0xBC5C02 }, { tag := 21, val := .uint 1 }, { tag := 3, val := .utf8 [0x61] }]
+    pubkeyAlgo := 1, ecCurveId := 1, pubkey := [4, 1, 2, 3]
+    exts := [.basic true (some 0), .keyUsage 0x60, .extKeyUsage [2, 1], .subjKeyId [1, 2], .authKeyId [3]] }
+
+/-- (3) **certificate round trip, every certificate within the declared bounds** (`Fields.Legal`): `as_asn1`
+into any buffer with enough room (below 64 KiB) writes the encoding of `certNode`, which parses as DER, and the
+fields read back from it — serial, algorithms, every DN attribute with its OID / string type / value, both validity
+instants (0 = no well-defined expiry), the public key, every extension with criticality and value — are exactly
+the certificate's (`Fields.view`) -/
+theorem cert_der_roundtrip (f : Fields) (h : f.Legal) :
+    ∃ n, certNode f = some n ∧ ∀ buf : List Nat, n.need ≤ buf.length → buf.length < 65536 →
+      ∃ der d v, asAsn1 f.lazy buf = .ok der ∧ der = n.enc ∧ parseDer der = some d ∧
+        certFieldsOfDer d = some v ∧ f.view = some v :=
+  cert_roundtrip_legal f h
+example : (certNode certSample).map (fun n => decide (n.need ≤ Consts.c17MaxCertAsn1Len ∧ n.need < 65536)) = some true := by
+  decide +kernel
+example : certSample.Legal := by
+  refine ⟨rfl, rfl, rfl, by decide, by decide, ?_, ?_, ?_⟩
+  · intro a ha; simp [certSample] at ha; rcases ha with rfl | rfl <;> simp [Attr.WF]
+  · intro a ha; simp [certSample] at ha; rcases ha with rfl | rfl | rfl <;> simp [Attr.WF]
+  · intro e he; simp [certSample] at he
+    rcases he with rfl | rfl | rfl | rfl | rfl <;> simp [XExt.WF]
+
+end DerCert
 
 end C17
